@@ -321,3 +321,376 @@ Fixpoint seq_ok (c : cfg) (bl : list Z -> Z -> bool) (st : lsm) (steps : list (o
 
 Definition ok_lsm_seq (case : cfg * list (list Z * Z) * list (op * out * snap)) : bool :=
   let '(c, fps, steps) := case in seq_ok c (bl_of fps) (lsm_init c) steps.
+
+(* ================================================================== *)
+(** * The generator API as a step machine (overlapping operations)
+
+    One segment = the code a generator method executes between two yields.
+    A schedule interleaves the segments of concurrently started operations (in
+    a real Simulation the interleaving is fixed by the yielded delays; the
+    theorems quantify over all interleavings, the correspondence replays the
+    one the engine chose).  Objects compared by identity in the code
+    ([list.remove(sst)], the memtable a suspended [Memtable.put] is bound to)
+    carry ids.  Models the code AFTER the fix of finding C14-lsm-flush-window:
+    a frozen copy of the flushed memtable stays in [_immutable_memtables] until
+    the SSTable is installed. *)
+
+Record tbl := mkTbl { tid : Z; tdata : table }.
+
+Record cstate := mkC {
+  c_mem : table; c_mid : Z;
+  c_imm : list (Z * table);
+  c_levels : list (list tbl);
+  c_ncomp : Z; c_nflush : Z; c_next : Z }.
+
+Definition c_init (c : cfg) : cstate :=
+  {| c_mem := []; c_mid := 0; c_imm := []; c_levels := repeat [] (nlev c);
+     c_ncomp := 0; c_nflush := 0; c_next := 1 |}.
+
+Inductive kont :=
+| KPutWait (mid : Z)
+| KFlushWait (fid : Z) (sst : table)
+| KCompactWait (s t : nat) (srcs ovs : list Z) (new : table)
+| KGetWait (k : Z) (li n : nat) (held : table)
+| KScanWait (lo hi : Z) (merged : table) (li n : nat) (held : table).
+
+Inductive action := AStart (o : op) | AResume (k : kont).
+Inductive result := RYield (ns : Z) (k : kont) | RDone (o : out).
+
+Definition MEM_NS := 10000.        (* Memtable write_latency 0.00001 s *)
+Definition WRITE_NS := 2000000.    (* sstable_write_latency 0.002 s *)
+Definition READ_NS := 1000000.     (* sstable_read_latency 0.001 s *)
+
+Fixpoint upd_nth {A} (n : nat) (f : A -> A) (l : list A) : list A :=
+  match l with
+  | [] => []
+  | x :: r => match n with O => f x :: r | S n' => x :: upd_nth n' f r end
+  end.
+
+Definition remove_ids (ids : list Z) (l : list tbl) : list tbl :=
+  filter (fun t => negb (existsb (Z.eqb (tid t)) ids)) l.
+
+Definition pages (t : table) : Z := Z.max 1 (zlen t / 16).
+
+(** _compact up to its yield *)
+Definition compact_begin (c : cfg) (st : cstate) : cstate * result :=
+  match pick (strat c) (map (map tdata) (c_levels st)) with
+  | None => (st, RDone ONone)
+  | Some s =>
+      let srcs := nth s (c_levels st) [] in
+      match srcs with
+      | [] => (st, RDone ONone)
+      | _ =>
+          let last := pred (length (c_levels st)) in
+          let t := Nat.min (S s) last in
+          let sd := map tdata srcs in
+          let ovs := if Nat.eqb t s then []
+                     else filter (fun x => is_overlapping sd (tdata x)) (nth t (c_levels st) []) in
+          let m0 := fold_left add_absent (map tdata ovs) (merge_src sd) in
+          let m := if Nat.eqb t last then drop_tombs m0 else m0 in
+          match m with
+          | [] => (mkC (c_mem st) (c_mid st) (c_imm st) (c_levels st) (c_ncomp st + 1) (c_nflush st) (c_next st),
+                   RDone ONone)
+          | _ => (st, RYield (pages m * WRITE_NS) (KCompactWait s t (map tid srcs) (map tid ovs) m))
+          end
+      end
+  end.
+
+Definition compact_end (st : cstate) (s t : nat) (srcs ovs : list Z) (m : table) : cstate :=
+  let l1 := upd_nth s (remove_ids srcs) (c_levels st) in
+  let l2 := upd_nth t (remove_ids ovs) l1 in
+  let l3 := upd_nth t (fun l => l ++ [mkTbl (c_next st) m]) l2 in
+  mkC (c_mem st) (c_mid st) (c_imm st) l3 (c_ncomp st + 1) (c_nflush st) (c_next st + 1).
+
+(** _flush_memtable up to its yield *)
+Definition flush_begin (st : cstate) : cstate * result :=
+  match c_mem st with
+  | [] => (st, RDone ONone)
+  | m =>
+      let fid := c_next st in
+      (mkC [] (c_next st + 1) (c_imm st ++ [(fid, m)]) (c_levels st) (c_ncomp st) (c_nflush st) (c_next st + 2),
+       RYield (pages m * WRITE_NS) (KFlushWait fid m))
+  end.
+
+Definition flush_end (c : cfg) (st : cstate) (fid : Z) (sst : table) : cstate * result :=
+  let st1 := mkC (c_mem st) (c_mid st)
+                 (filter (fun p => negb (fst p =? fid)) (c_imm st))
+                 (upd_nth 0 (fun l => l ++ [mkTbl (c_next st) sst]) (c_levels st))
+                 (c_ncomp st) (c_nflush st + 1) (c_next st + 1) in
+  compact_begin c st1.
+
+(** newest-first search of the immutable memtables *)
+Fixpoint imm_get (k : Z) (imm : list (Z * table)) : option sval :=
+  match imm with
+  | [] => None
+  | p :: r => match imm_get k r with Some v => Some v | None => assoc k (snd p) end
+  end.
+
+(** [reversed(level)] iterator with [n] = index + 1: the next item is
+    [level[n-1]] when that index is still inside the (possibly mutated) list,
+    otherwise the iterator is exhausted. *)
+Fixpoint get_level (bl : list Z -> Z -> bool) (k : Z) (l : list tbl) (n : nat) : option (nat * table) :=
+  match n with
+  | O => None
+  | S n' =>
+      match nth_error l n' with
+      | None => None
+      | Some t => if bl (keys (tdata t)) k && negb (match tdata t with [] => true | _ => false end)
+                  then Some (n', tdata t)
+                  else if bl (keys (tdata t)) k
+                       then (* page_reads = 0 (empty table): no yield, sstable.get *)
+                            get_level bl k l n'
+                       else get_level bl k l n'
+      end
+  end.
+
+(** outer loop over the levels [ls] = levels[li:], first level entered with [n] *)
+Fixpoint get_levels (bl : list Z -> Z -> bool) (k : Z) (ls : list (list tbl)) (li n : nat) : result :=
+  match ls with
+  | [] => RDone (OGet None)
+  | l :: r =>
+      match get_level bl k l n with
+      | Some (n', t) => RYield (2 * READ_NS) (KGetWait k li n' t)
+      | None => get_levels bl k r (S li) (match r with [] => O | l' :: _ => length l' end)
+      end
+  end.
+
+Definition get_from (bl : list Z -> Z -> bool) (st : cstate) (k : Z) (li n : nat) : result :=
+  get_levels bl k (skipn li (c_levels st)) li n.
+
+Definition hit (v : sval) : result := RDone (OGet (ext (Some v))).
+
+(** SSTable.page_reads_for_scan *)
+Definition scan_pages (lo hi : Z) (t : table) : Z :=
+  match t with
+  | [] => 0
+  | _ => let n := zlen (filter (in_range lo hi) t) in
+         if n <=? 0 then 0 else 1 + (n + 16 - 1) / 16
+  end.
+
+Fixpoint scan_level_c (lo hi : Z) (m : table) (l : list tbl) (n : nat) : table * option (nat * table) :=
+  match n with
+  | O => (m, None)
+  | S n' =>
+      match nth_error l n' with
+      | None => (m, None)
+      | Some t => if scan_pages lo hi (tdata t) >? 0 then (m, Some (n', tdata t))
+                  else scan_level_c lo hi (add_absent m (filter (in_range lo hi) (tdata t))) l n'
+      end
+  end.
+
+Fixpoint scan_levels_c (lo hi : Z) (m : table) (ls : list (list tbl)) (li n : nat) : result :=
+  match ls with
+  | [] => RDone (OScan (live m))
+  | l :: r =>
+      match scan_level_c lo hi m l n with
+      | (m', Some (n', t)) => RYield (scan_pages lo hi t * READ_NS) (KScanWait lo hi m' li n' t)
+      | (m', None) => scan_levels_c lo hi m' r (S li) (match r with [] => O | l' :: _ => length l' end)
+      end
+  end.
+
+Definition l0_len (st : cstate) : nat := match c_levels st with [] => O | l :: _ => length l end.
+
+Definition seg (c : cfg) (bl : list Z -> Z -> bool) (st : cstate) (a : action) : cstate * result :=
+  match a with
+  | AStart (Put k v) =>
+      (mkC (sset k (Val v) (c_mem st)) (c_mid st) (c_imm st) (c_levels st) (c_ncomp st) (c_nflush st) (c_next st),
+       RYield MEM_NS (KPutWait (c_mid st)))
+  | AStart (Del k) =>
+      (mkC (sset k Tomb (c_mem st)) (c_mid st) (c_imm st) (c_levels st) (c_ncomp st) (c_nflush st) (c_next st),
+       RYield MEM_NS (KPutWait (c_mid st)))
+  | AStart (Get k) =>
+      match assoc k (c_mem st) with
+      | Some v => (st, hit v)
+      | None =>
+          match imm_get k (c_imm st) with
+          | Some v => (st, hit v)
+          | None => (st, get_from bl st k 0 (l0_len st))
+          end
+      end
+  | AStart (Scan lo hi) =>
+      let m0 := set_all [] (filter (in_range lo hi) (c_mem st)) in
+      let m1 := fold_left (fun m p => add_absent m (filter (in_range lo hi) (snd p))) (rev (c_imm st)) m0 in
+      (st, scan_levels_c lo hi m1 (c_levels st) 0 (l0_len st))
+  | AResume (KPutWait mid) =>
+      let full := if mid =? c_mid st then zlen (c_mem st) >=? thr c else 0 >=? thr c in
+      if full then flush_begin st else (st, RDone ONone)
+  | AResume (KFlushWait fid sst) => flush_end c st fid sst
+  | AResume (KCompactWait s t srcs ovs m) => (compact_end st s t srcs ovs m, RDone ONone)
+  | AResume (KGetWait k li n held) =>
+      match tbl_get bl k held with
+      | Some v => (st, hit v)
+      | None => (st, get_from bl st k li n)
+      end
+  | AResume (KScanWait lo hi m li n held) =>
+      let m' := add_absent m (filter (in_range lo hi) held) in
+      (st, scan_levels_c lo hi m' (skipn li (c_levels st)) li n)
+  end.
+
+(** ** Schedules *)
+
+(** One scheduling decision: operation [oid] starts with [o], or resumes. *)
+Inductive sched_step := SStart (oid : Z) (o : op) | SResume (oid : Z).
+
+Fixpoint kget (oid : Z) (ks : list (Z * kont)) : option kont :=
+  match ks with [] => None | (i, k) :: r => if i =? oid then Some k else kget oid r end.
+Definition kdel (oid : Z) (ks : list (Z * kont)) := filter (fun p => negb (fst p =? oid)) ks.
+
+(** what one scheduling decision produced (for the history) *)
+Inductive hevent := HStart (oid : Z) (o : op) | HYield (oid : Z) (ns : Z) | HDone (oid : Z) (r : out) | HBad (oid : Z).
+
+Definition world := (cstate * list (Z * kont))%type.
+
+Definition wstep (c : cfg) (bl : list Z -> Z -> bool) (w : world) (s : sched_step) : world * list hevent :=
+  let '(st, ks) := w in
+  match s with
+  | SStart oid o =>
+      match seg c bl st (AStart o) with
+      | (st', RYield ns k) => ((st', (oid, k) :: ks), [HStart oid o; HYield oid ns])
+      | (st', RDone r) => ((st', ks), [HStart oid o; HDone oid r])
+      end
+  | SResume oid =>
+      match kget oid ks with
+      | None => (w, [HBad oid])
+      | Some k =>
+          match seg c bl st (AResume k) with
+          | (st', RYield ns k') => ((st', (oid, k') :: kdel oid ks), [HYield oid ns])
+          | (st', RDone r) => ((st', kdel oid ks), [HDone oid r])
+          end
+      end
+  end.
+
+Fixpoint wrun (c : cfg) (bl : list Z -> Z -> bool) (w : world) (sch : list sched_step) : world * list hevent :=
+  match sch with
+  | [] => (w, [])
+  | s :: r => let '(w1, h1) := wstep c bl w s in
+              let '(w2, h2) := wrun c bl w1 r in (w2, h1 ++ h2)
+  end.
+
+Definition history (c : cfg) (bl : list Z -> Z -> bool) (sch : list sched_step) : list hevent :=
+  snd (wrun c bl (c_init c, []) sch).
+
+(** ** Correspondence: per-segment replay of a real Simulation run *)
+
+Definition csnap := (table * list table * list level * Z * Z)%type.   (* mem, imm, levels, ncomp, nflush *)
+
+Definition csnap_eqb (st : cstate) (s : csnap) : bool :=
+  let '(m, im, ls, nc, nf) := s in
+  table_eqb (c_mem st) m && list_eqb table_eqb (map snd (c_imm st)) im &&
+  levels_eqb (map (map tdata) (c_levels st)) ls && (c_ncomp st =? nc) && (c_nflush st =? nf).
+
+(** observed outcome of a segment: yielded delay in ns, or completion with a result *)
+Inductive obs := OYield (ns : Z) | ODone (r : out).
+
+Definition obs_ok (r : result) (o : obs) : bool :=
+  match r, o with
+  | RYield ns _, OYield ns' => ns =? ns'
+  | RDone x, ODone y => out_eqb x y
+  | _, _ => false
+  end.
+
+Fixpoint conc_ok (c : cfg) (bl : list Z -> Z -> bool) (w : world) (steps : list (sched_step * obs * csnap)) : bool :=
+  match steps with
+  | [] => true
+  | (s, o, sn) :: rest =>
+      let '(st, ks) := w in
+      let a := match s with
+               | SStart _ op => Some (AStart op)
+               | SResume oid => match kget oid ks with Some k => Some (AResume k) | None => None end
+               end in
+      match a with
+      | None => false
+      | Some a =>
+          let '(st', r) := seg c bl st a in
+          let oid := match s with SStart i _ | SResume i => i end in
+          let ks' := match r with RYield _ k => (oid, k) :: kdel oid ks | RDone _ => kdel oid ks end in
+          obs_ok r o && csnap_eqb st' sn && conc_ok c bl (st', ks') rest
+      end
+  end.
+
+Definition ok_lsm_conc (case : cfg * list (list Z * Z) * list (sched_step * obs * csnap)) : bool :=
+  let '(c, fps, steps) := case in conc_ok c (bl_of fps) (c_init c, []) steps.
+
+(* ------------------------------------------------------------------ *)
+(** ** The overlap clause of C14 as a decidable predicate on histories
+
+    Time = position in the history.  A read of key [k] over [rs, re] may return
+    the value of any write to [k] that began before [re] and is not followed by
+    another write to [k] lying entirely after it and entirely before [rs]; or
+    "absent" when no write to [k] completed before [rs]. *)
+
+Fixpoint index_from {A} (i : Z) (l : list A) : list (Z * A) :=
+  match l with [] => [] | x :: r => (i, x) :: index_from (i + 1) r end.
+
+Definition start_of (h : list (Z * hevent)) (oid : Z) : option (Z * op) :=
+  match find (fun p => match snd p with HStart i _ => i =? oid | _ => false end) h with
+  | Some (t, HStart _ o) => Some (t, o)
+  | _ => None
+  end.
+
+Definition done_of (h : list (Z * hevent)) (oid : Z) : option (Z * out) :=
+  match find (fun p => match snd p with HDone i _ => i =? oid | _ => false end) h with
+  | Some (t, HDone _ r) => Some (t, r)
+  | _ => None
+  end.
+
+(** writes to key [k]: (start, done, value) *)
+Definition writes_of (h : list (Z * hevent)) (k : Z) : list (Z * option Z * option Z) :=
+  flat_map (fun p =>
+    match snd p with
+    | HStart oid (Put k' v) => if k' =? k then [(fst p, option_map fst (done_of h oid), Some v)] else []
+    | HStart oid (Del k') => if k' =? k then [(fst p, option_map fst (done_of h oid), None)] else []
+    | _ => []
+    end) h.
+
+Definition done_before (rs : Z) (w : Z * option Z * option Z) : bool :=
+  match snd (fst w) with Some e => e <? rs | None => false end.
+
+Definition admissible (ws : list (Z * option Z * option Z)) (rs re : Z) (r : option Z) : bool :=
+  let db := filter (done_before rs) ws in
+  (match db with [] => match r with None => true | _ => false end | _ => false end) ||
+  existsb (fun w =>
+    let '(s, e, v) := w in
+    (s <=? re) && option_eqb Z.eqb v r &&
+    match e with
+    | Some e => negb (existsb (fun x => fst (fst x) >? e) db)
+    | None => true
+    end) ws.
+
+Fixpoint zz_assoc (k : Z) (l : list (Z * Z)) : option Z :=
+  match l with [] => None | (k', v) :: r => if k =? k' then Some v else zz_assoc k r end.
+
+Definition read_ok (h : list (Z * hevent)) (p : Z * hevent) : bool :=
+  match snd p with
+  | HDone oid (OGet r) =>
+      match start_of h oid with
+      | Some (rs, Get k) => admissible (writes_of h k) rs (fst p) r
+      | _ => false
+      end
+  | HDone oid (OScan r) =>
+      match start_of h oid with
+      | Some (rs, Scan lo hi) =>
+          forallb (fun i => let k := lo + Z.of_nat i in admissible (writes_of h k) rs (fst p) (zz_assoc k r))
+                  (seq 0 (Z.to_nat (hi - lo))) &&
+          forallb (fun kv => (lo <=? fst kv) && (fst kv <? hi)) r
+      | _ => false
+      end
+  | HBad _ => false
+  | _ => true
+  end.
+
+Definition reads_ok (h : list hevent) : bool :=
+  let ih := index_from 0 h in forallb (read_ok ih) ih.
+
+(** A schedule in which every operation runs alone: its start is followed by
+    its resumes until it completes, before the next operation starts. *)
+Fixpoint alone_from (fuel : nat) (c : cfg) (bl : list Z -> Z -> bool) (w : world) (oid : Z) : world * list hevent :=
+  match fuel with
+  | O => (w, [])
+  | S f =>
+      match kget oid (snd w) with
+      | None => (w, [])
+      | Some _ => let '(w1, h1) := wstep c bl w (SResume oid) in
+                  let '(w2, h2) := alone_from f c bl w1 oid in (w2, h1 ++ h2)
+      end
+  end.
